@@ -1,5 +1,5 @@
 import RedisEmu.Exec
-import RedisEmu.Proofs.GoArith
+import RedisEmu.Proofs.GoArithStr
 import Mathlib.Tactic.SplitIfs
 /-
   C02 — string and counter commands.
@@ -287,5 +287,8 @@ theorem getrange_clamp_maxint :
 theorem setrange_size_guard_as_coded (o l : BitVec 64) (hl : 0 ≤ l.toInt) (hl2 : l.toInt < 4611686018427387904) :
     Go.setrangeSizeGuard o l = (decide (o.toInt > hugeAlloc) || decide (o.toInt + l.toInt > hugeAlloc)) :=
   go_setrangeSizeGuard o l hl hl2
+
+/-- this property's part of what the translator delivered on this run -/
+theorem go_arith_translated_str : ["getRangeClamp", "addIntOverflowGuard", "setrangeSizeGuard"].all (Go.translated.contains ·) = true := by decide
 
 end RedisEmu
